@@ -76,6 +76,10 @@ private:
     CompInfo      m_info;      // status of the computation
     // clang-format on
 
+#ifdef YIXUAN_SPECTRA_VERIF
+    friend struct ::Spectra::verif::Access;
+#endif
+
     // Real Ritz values calculated from UpperHessenbergEigen have exact zero imaginary part
     // Complex Ritz values have exact conjugate pairs
     // So we use exact tests here
